@@ -71,9 +71,7 @@ def verify_spec_termination(E, db, sd):
     fv.ghost_mode = 1
     st = State()
     for n, ty in sd.params:
-        st.env[n] = fv.make_param(st, n, ("arr", {"int": "i8", "float": "f8", "bool": "b1"}.get(ty[1], ty[1]), ty[2]) if ty[0] == "arr" else ty)
-        if ty[0] == "arr":
-            st.env[n] = fv.arr_value(st, st.env[n])
+        st.env[n] = fv.make_param(st, n, ty)
     uses_rec = False
     import ast as _ast
 
